@@ -126,8 +126,24 @@ def generate(seed: int, tier: str = "quick") -> dict:
     for _ in range(nother):
         b = rp.randint(0, nb - 1)
         phase = rp.choice(["before_bar", "trigger", "on_bar", "on_bar", "after_bar"])
-        kind = rp.choice(["add_unrelated", "add_unrelated", "remove_part", "remove_all_of", "collect", "buy", "sell", "add_same", "lend_out", "take_back"])
+        kind = rp.choice(["add_unrelated", "add_unrelated", "remove_part", "remove_all_of", "collect", "buy", "sell", "add_same", "lend_out", "take_back", "add_then_refused"])
         cur = ticks[close_of(b)]
+        if kind == "add_then_refused":
+            # an accepted liquidity change followed, in the same phase of the same bar, by a write the pool refuses: the
+            # refused call must not take back what the accepted one earned (the bar's second status refresh)
+            lo = _round(cur + rp.randint(-30, 10) * sp, sp)
+            a = {"lo": lo, "hi": lo + rp.randint(1, 30) * sp, "base": {"f": f"wallet:{_base(mw)}", "x": "0.03"}, "quote": {"f": f"wallet:{_quote(mw)}", "x": "0.03"}}
+            program.append({"bar": b, "phase": phase, "op": "uni.add_by_tick", "m": "uni0", "a": a})
+            bad = rp.choice(["too_much", "unknown_position", "collect_unknown"])
+            if bad == "too_much":
+                a2 = {"lo": lo, "hi": lo + sp, "base": {"f": f"wallet:{_base(mw)}", "x": "3"}, "quote": {"f": f"wallet:{_quote(mw)}", "x": "3"}}
+                program.append({"bar": b, "phase": phase, "op": "uni.add_by_tick", "m": "uni0", "a": a2})
+            elif bad == "unknown_position":
+                program.append({"bar": b, "phase": phase, "op": "uni.remove", "m": "uni0", "a": {"pos": {"lo": _round(880000, sp) - sp, "hi": _round(880000, sp)}}})
+            else:
+                program.append({"bar": b, "phase": phase, "op": "uni.collect", "m": "uni0", "a": {"pos": {"lo": _round(880000, sp) - sp, "hi": _round(880000, sp)}}})
+            faults.append({"kind": "same_bar_write_then_refused_write", "bar": b})
+            continue
         if kind == "add_unrelated":
             lo = _round(cur + rp.randint(-400, 400) * sp, sp)
             hi = lo + rp.randint(1, 30) * sp
